@@ -15,7 +15,8 @@ RULE = ('(a) EXHAUSTIVE spine-operator layouts: from 1-3 spines (five header mix
         'legal operator row (each path one of *, *^, *-, or member of a *v run of length >=2 inside its spine, at least '
         'one real operator, width <=5) from every reachable state, a labelled data row between operator rows, closed by '
         'terminators: depth <=2 completely in the quick tier (+ a seed-dependent stride of depth 3), depth <=3 '
-        'completely in the thorough tier.  (b) Hypothesis documents of the "full" profile with blank lines inserted. '
+        'completely in the thorough tier; Hypothesis random walks over the same layout graph to depth 7 / width 8 with '
+        'operator-dense rows.  (b) Hypothesis documents of the "full" profile with blank lines inserted. '
         '(c) Hypothesis documents whose **text / unknown-type cells are literals over an alphabet weighted to quote, '
         'apostrophe, comma, space, backslash and non-ASCII characters at the start, middle and end of cells. (d) a '
         'valid document with 1-3 surplus cells appended to one line: loads must raise.  Oracle: kv/spine.py against '
@@ -252,6 +253,40 @@ def layout_cases(ctx):
                 idx += 1
 
 
+@st.composite
+def deep_layouts(draw):
+    """random walks over the layout graph beyond the exhaustive depth: up to 7 operator rows, width <= 8, rows dense in
+    operators (so that e.g. two join groups separated by terminators, or five sub-spines of one spine, do occur)"""
+    types = draw(st.sampled_from([['**kern'], ['**kern'], ['**text', '**kern'], ['**kern', '**kern'], ['**kern', '**foo', '**text']]))
+    paths = list(range(len(types)))
+    seq = []
+    for _ in range(draw(st.integers(3, 7))):
+        if not paths:
+            break
+        ops = [draw(st.sampled_from('*^^vvv-')) for _ in paths]
+        # repair: lone joins, joins across a spine boundary, width
+        i, n = 0, len(paths)
+        while i < n:
+            if ops[i] == 'v':
+                j = i
+                while j + 1 < n and ops[j + 1] == 'v' and paths[j + 1] == paths[i]:
+                    j += 1
+                if j == i:
+                    ops[i] = '*'
+                i = j + 1
+            else:
+                i += 1
+        while len(apply_ops(paths, ops)) > 8 and '^' in ops:
+            ops[ops.index('^')] = '*'
+        if all(o == '-' for o in ops) and draw(st.booleans()):
+            ops[0] = '*'
+        if set(ops) <= {'*'}:
+            ops[0] = '^' if len(paths) < 8 else '-'
+        seq.append(''.join(ops))
+        paths = apply_ops(paths, ops)
+    return {'doc': build_layout(types, seq), 'src': 'layout-random-deep'}
+
+
 # ---- (b)-(d) random ------------------------------------------------------------------------------------------------
 LIT_ALPHA = list('"\'\'",,  \;:ñéü日本ΩaZ09-_/()[]{}<>#&%$?+~^|`') + ['""', "''", '" "', ', ', '\\t', '\\n', '""""', '\u2028', '\x0c', '\x85', '\u2029', '\x1c', '\x0b']
 
@@ -315,6 +350,7 @@ def surplus_cases(draw):
 def run(ctx):
     ctx.check_all(layout_cases(ctx), check)
     n = (300 if ctx.quick else 20000) // ctx.nshards
+    ctx.run_hypothesis(deep_layouts(), check, max_examples=(600 if ctx.quick else 40000) // ctx.nshards, salt=4, label='deep-layouts')
     ctx.run_hypothesis(random_cases('full'), check, max_examples=n, salt=1, label='random-full')
     ctx.run_hypothesis(random_cases('literal'), check, max_examples=n, salt=2, label='literal')
     ctx.run_hypothesis(surplus_cases(), check, max_examples=max(30, n // 3), salt=3, label='surplus')
